@@ -784,6 +784,8 @@ pub fn long_run(emu: &mut Emu, cks: u8) -> Result<u64, String> {
 /// whether its requests are accepted: both runs must raise the same number of requests per vector - thousands of
 /// them pending at once in the second run ("once per event", whatever the depth of the backlog).
 pub fn masked_window(emu: &mut Emu, tcora: u8, chunks: u32) -> Result<(u64, u64), String> {
+    // odd chunk counts: with acknowledgements on the way
+    let ack = chunks % 2 == 1;
     let w = |emu: &mut Emu, a: u32, v: u8| emu.cpu.bus.write(a, v).map_err(|e| e.to_string());
     let mut totals: [[u64; 64]; 2] = [[0; 64]; 2];
     for pass in 0..2 {
@@ -792,7 +794,7 @@ pub fn masked_window(emu: &mut Emu, tcora: u8, chunks: u32) -> Result<(u64, u64)
         w(emu, TCORB, 0xf0)?;
         w(emu, TCNT, 0)?;
         w(emu, TCR, 0x40 | 0x20 | 0x08 | 0x01)?;
-        for _ in 0..chunks {
+        for k in 0..chunks {
             let cpu = &mut emu.cpu;
             match guarded(|| hooks::update_modules(cpu, 255)) {
                 Ok(Ok(())) => {}
@@ -803,6 +805,12 @@ pub fn masked_window(emu: &mut Emu, tcora: u8, chunks: u32) -> Result<(u64, u64)
                 for v in drain_irqs(emu)? {
                     totals[0][v as usize] += 1;
                 }
+            }
+            // every few charges the CPU acknowledges the flags (a store to TCSR0 with the flag bits clear), in both
+            // runs alike: acknowledging a flag has nothing to do with requests that are already raised - with a
+            // backlog pending (second run) every one of them must still be delivered
+            if ack && k % 7 == 3 {
+                w(emu, TCSR, 0x00)?;
             }
         }
         if pass == 1 {
@@ -952,7 +960,7 @@ pub fn run(ctx: &Ctx) -> i32 {
         fuzz_campaign(ctx, "fuzz_timer", 8, 400_000, 800, &mut stats);
     }
     // masked windows: backlogs of about 300, 5,000 and 70,000 (thorough: 300,000) pending requests
-    let windows: Vec<(u8, u32)> = if tier == Tier::Thorough { vec![(1, 20), (2, 400), (1, 4500), (3, 30000)] } else { vec![(1, 20), (2, 400), (1, 4500)] };
+    let windows: Vec<(u8, u32)> = if tier == Tier::Thorough { vec![(1, 20), (2, 400), (1, 4500), (3, 30000), (1, 21), (2, 401), (3, 4501)] } else { vec![(1, 20), (2, 400), (1, 4500), (1, 21), (2, 401)] };
     let mstats = par_shards(ctx, windows.len(), |i| {
         let mut emu = Emu::new(&ctx.base);
         let mut st = Stats::new();
